@@ -71,6 +71,8 @@ static void check_projection(Ctx& ctx, const Ell& E, const Under& U, const Oracl
   const Q tauf_gross = fam.prolate ? (2.2Q * fabsq(E.e2) < 0.9Q ? 4 * E.a * powq(2.2Q * fabsq(E.e2), 6) : HUGE_VALQ) : Q(0);
   for (double lat : A.lats) for (double lon0 : A.lon0s) for (double dnom : A.dlons) {
     if (!U.has_lon0 && lon0 != 0) continue;
+    const bool far0 = std::fabs(lon0) > 1000 || lon0 == -77.75;                      // far-out central meridian (exactly representable -77.75 + 360 m): reduced longitude-offset subset
+    if (far0 && !(dnom == 0 || dnom == 30 || dnom == -179 || dnom == 180)) continue;
     const double lon = lon0 + dnom, dlon = eff_dlon(lon0, lon);
     mc::Ctx::Case cs(ctx);
     auto WH = [&]() { return U.name + " lat=" + fx(lat) + " lon0=" + fmt(lon0) + " lon=" + fx(lon) + " dlon=" + fx(dlon); };   // built only when needed
@@ -92,6 +94,19 @@ static void check_projection(Ctx& ctx, const Ell& E, const Under& U, const Oracl
       continue;
     }
 
+    if (far0 && U.has_lon0 && lon0 != -77.75) {
+      // invariance under lon0 -> lon0 + 360 m: the same exact longitude difference from the central meridian -77.75 (the difference is a multiple of ulp(lon), so -77.75 + dlon is exact)
+      const double lonb = -77.75 + dlon;
+      if ((long double)lonb - (long double)(-77.75) == (long double)dlon) {
+        double xb, yb, gb, kb; U.fwd(-77.75, lat, lonb, xb, yb, gb, kb);
+        if (!(xb == x && yb == y && kb == k && (gb == gam || (std::fabs(gb) == std::fabs(gam) && fabsq(O.n * Q(dlon)) >= 180))))
+          FAIL("wrap-lon0-forward", "Forward(lon0=" + fmt(lon0) + ") = " + fx(x) + "," + fx(y) + "," + fx(gam) + "," + fx(k) + " but Forward(lon0=-77.75) = " + fx(xb) + "," + fx(yb) + "," + fx(gb) + "," + fx(kb));
+        double la1, lo1, g1, k1r, la2, lo2, g2, k2r; U.rev(lon0, x, y, la1, lo1, g1, k1r); U.rev(-77.75, x, y, la2, lo2, g2, k2r);
+        Q dl = fabsq(angdiff(Q(lo1), Q(lo2)));
+        if (!(la1 == la2 && g1 == g2 && k1r == k2r && dl <= 4 * 2.2e-16Q * 180))
+          FAIL("wrap-lon0-reverse", "Reverse(lon0=" + fmt(lon0) + ") = " + fx(la1) + "," + fx(lo1) + "," + fx(g1) + "," + fx(k1r) + " but Reverse(lon0=-77.75) = " + fx(la2) + "," + fx(lo2) + "," + fx(g2) + "," + fx(k2r));
+      }
+    }
     const Lat L = proj_cf::latd(lat);
     const Q lam = Q(dlon) * proj_cf::deg();
     const Q Mr = E.Mrad(L.s), Pr = E.Nrad(L.s) * L.c;
@@ -358,7 +373,7 @@ int main(int argc, char** argv) {
   std::vector<Pair> ALBERS_ONLY;           // one parallel at a pole: admissible for Albers, documented GeographicErr for LambertConformalConic
   // incl. the Math::tauf thresholds: one vs two Newton steps at 3.35 deg, asymptotic start value for |taup| > 70 (lat > 89.18)
   std::vector<double> LATBASE = {-90, -89.999999999, -89.5, -89, -60, -45, -4, -1, -1e-9, 0, 1e-9, 1, 3, 30, 45, 60, 75, 89, 89.5, 89.999999999, 90};
-  Axes AX; AX.dlons = {0, 1e-9, 30, 90, 179, 180, -180, -30, -179}; AX.lon0s = {0, -170, 190};
+  Axes AX; AX.dlons = {0, 1e-9, 30, 90, 179, 180, -180, -30, -179}; AX.lon0s = {0, -170, 190, -77.75, -77.75 + 360.0 * 7, -77.75 + 360.0 * 10000, -77.75 - 360.0 * 250000};
   if (!T) AX.dlons = {0, 1e-9, 30, 179, 180, -180, -30};
   std::vector<double> SETSCALE_LATS = {-89.0, -60.0, 0.0, 1e-9, 45.0, 89.0};
   if (T) {   // deep thorough tier
@@ -382,7 +397,7 @@ int main(int argc, char** argv) {
   ctx.bound("lat", std::string("{+-90, +-(90-1e-9), +-89.5, +-89, -60, -45, -4, -1, +-1e-9, 0, 1, 3, 30, 45, 60, 75} + each standard parallel, the origin latitude and their +-1e-9 neighbours") +
             (T ? "; deep tier adds +-{0.1, 3.3, 3.4, 10, 20, 50, 70, 80, 85, 89.1, 89.2, 89.9, 89.99}, -30, 40" : ""));
   ctx.bound("dlon", T ? "{0, +-1e-9, 1, 30, 60, 90, 120, 150, 179, 180-1e-9, 180, -180, -30, -90, -150, -179}" : "{0, 1e-9, 30, 179, 180, -180, -30}");
-  ctx.bound("lon0", "{0, -170, 190}");
+  ctx.bound("lon0", "{0, -170, 190, -77.75} and the far-out, exactly representable -77.75 + 360 m for m in {7, 10000, -250000} (with dlon {0, 30, -179, 180}): oracle comparison, round trip, and invariance of Forward/Reverse under lon0 -> lon0 + 360 m; polar stereographic: lon = dlon + 360 m");
   ctx.bound("oracle", "Snyder closed forms in __float128; Jacobian by central differences (h = 2^-30 rad)");
   ctx.note("tolerances: position 2 x 10 nm ground distance (LambertConformalConic.hpp; the C11 statement extends it to the other two classes); conformal maps: plane distance / k; "
            "Albers: east-west plane error / k, north-south plane error x k; round trips additionally allow 8 ulp of the plane coordinates mapped back to the ground (the inverse is ill-conditioned where k or 1/k is large)");
@@ -403,6 +418,7 @@ int main(int argc, char** argv) {
       Under U; U.name = std::string("PolarStereographic(") + EP.name + ",k0=" + fmt(k0) + (np ? ",north)" : ",south)"); bind_ps(U, ps, np != 0);
       Oracle O = make_ps_oracle(E, k0, np != 0);
       Axes A = AX; A.lats = LATBASE; A.lon0s = {0};
+      for (double v : {30 + 360.0 * 10000, -77.75 - 360.0 * 250000, -77.75 + 360.0 * 7}) A.dlons.push_back(v);      // far-out longitudes (no lon0 in this class)
       check_projection(ctx, E, U, O, A, famc, {np ? 90.0 : -90.0}, k0, true);
       // the static UPS() object
       if (std::string(EP.name) == "WGS84" && k0 == 0.994) {
